@@ -180,7 +180,9 @@ class Mutator(object):
             i = r.randrange(len(q))
             v = q[i][1] or ''
             big = r.choice(['99999999999999999999', '9223372036854775808',
-                            '2147483648', '-1', '0', '1e9', '٣'])
+                            '2147483648', '-1', '0', '1e9', '٣',
+                            # beyond what int() converts (4300 digits)
+                            '9' * 4400, '1_0', '+2', '%202', '0x10'])
             if ':' in v or '%3A' in v:
                 head = v.split('%3A')[0].split(':')[0]
                 q[i] = (q[i][0], '%s:%s' % (head, big))
@@ -193,7 +195,9 @@ class Mutator(object):
                                 'root_required', 'consumer_type', 'name',
                                 'uuid', 'associated', 'project_id',
                                 'user_id', 'resources_' + 'x' * 70]),
-                      quote(r.choice(STRS + ['1', 'isolate', 'none']),
+                      quote(r.choice(STRS + ['1', 'isolate', 'none',
+                                             '9' * 4400, '5\n', '10',
+                                             'all\n', 'allx']),
                             safe='')))
         elif kind == 'dropkey':
             del q[r.randrange(len(q))]
